@@ -81,6 +81,8 @@ func TLSCtx() (caddy.Context, error) {
 			"storage": map[string]any{"module": "file_system", "root": dir},
 			"logging": map[string]any{"logs": map[string]any{"default": map[string]any{"level": "ERROR", "writer": map[string]any{"output": "discard"}}}},
 			"apps": map[string]any{
+				// (the internal issuer must not install its root into the trust store of the machine the checks run on)
+				"pki": map[string]any{"certificate_authorities": map[string]any{"local": map[string]any{"install_trust": false}}},
 				"tls": map[string]any{
 					"certificates": map[string]any{
 						"load_pem": []map[string]any{{"certificate": string(CertPEM), "key": string(keyPEM), "tags": []string{"verif"}}},
